@@ -377,6 +377,20 @@ func verifLemmaSchemaOrArrayFixedPoint(v SchemaOrArray) (first, second []byte) {
 	return first, second
 }
 
+// a union value that the decoder produced never encodes as null: inside its holder (a pointer member with omitempty) a
+// null member would be dropped on the next round, so the holder's encoding would not be a fixed point (C07)
+func verifLemmaSchemaOrArrayNeverNull(data []byte) []byte {
+	var w SchemaOrArray
+	if err := w.UnmarshalJSON(data); err != nil {
+		return nil
+	}
+	out, err := w.MarshalJSON()
+	if err != nil {
+		return nil
+	}
+	return out
+}
+
 // the ordering of schema properties (C06): a strict total order on items with distinct names
 func verifLemmaLessTotal(items OrderSchemaItems, i, j int) (ij, ji bool) {
 	return items.Less(i, j), items.Less(j, i)
